@@ -1,5 +1,5 @@
-import Holpy.C08.Complete2
-import Holpy.C08.Main
+import Holpy.C08.Total
+import Holpy.C08.Props
 /-
 C08 — property theorems, part 2: totality and completeness of the unification core of `type_infer`
 (model: Model.lean).  Vocabulary: Proofs.lean (`Solves`, `Inv`), Reach.lean (`RInv`), Fuel.lean (`RB`, `Ty.size`),
@@ -15,16 +15,6 @@ theorem unify_fuel_suffices (st : St) (A B : Ty) (fuel : Nat) (inv : Inv st) (ri
     (hf : unifyFuel st A B ≤ fuel) : unify fuel st A B ≠ .error .fuel :=
   unify_fuel_ok inv ri rb hf
 
-namespace Ex2
-def bool : Ty := .con "bool" []
-def st2 : St := (newType (newType St.empty).2).2
-theorem rb_st2 : RB st2 := by
-  intro k j hj
-  have : rset st2 k = [] := by
-    unfold rset st2 newType St.empty
-    rcases k with _ | _ | k <;> simp
-  rw [this] at hj; cases hj
-end Ex2
 
 /-- non-vacuity: two fresh variables, `unify(?'_t0, ?'_t1 => bool)`: the bound is 3·4+3+2 = 17 -/
 example : Inv Ex2.st2 ∧ RInv Ex2.st2 ∧ RB Ex2.st2 ∧ unifyFuel Ex2.st2 (Ty.int 0) (tfun (Ty.int 1) Ex2.bool) = 17 :=
@@ -53,20 +43,6 @@ theorem unify_most_general (st st' : St) (A B : Ty) (fuel : Nat) (c : CInv st)
     · rw [h] at h'; cases h'
     · rw [h] at h'; cases h'; exact hσ'
 
-namespace Ex2
-theorem cinv_st2 : CInv st2 := by
-  refine ⟨newType_inv (newType_inv inv_empty), newType_rinv (newType_rinv rinv_empty), ?_, ?_⟩
-  · intro σ _ k j hj
-    have : rset st2 k = [] := by
-      unfold rset st2 newType St.empty
-      rcases k with _ | _ | k <;> simp
-    rw [this] at hj; cases hj
-  · intro k _
-    unfold rset st2 newType St.empty
-    rcases k with _ | _ | k <;> simp
-/-- σ = [nat => bool, nat] solves the (trivial) system of `st2` and unifies `?'_t0` with `?'_t1 => bool` -/
-def sigma : List Ty := [tfun (.con "nat" []) bool, .con "nat" []]
-end Ex2
 
 /-- non-vacuity of `unify_complete` / `unify_most_general`: hypotheses hold for `st2`, σ -/
 example : CInv Ex2.st2 ∧ Solves Ex2.sigma Ex2.st2.uf ∧
@@ -79,5 +55,48 @@ example : CInv Ex2.st2 ∧ Solves Ex2.sigma Ex2.st2.uf ∧
   · simp [St.n] at hU; subst hU; simp [Ex2.sigma]
   · simp [St.n] at hU; subst hU; simp [Ex2.sigma]
   · simp at hU
+
+/-- `infer_state_good`: every state the traversal `infer` reaches from the empty state satisfies all the
+invariants that `unify_fuel_suffices`, `unify_complete` and `unify_most_general` ask for — those theorems apply to
+every `unify` call `type_infer` makes. -/
+theorem infer_state_good (ctx : Ctx) (fuel : Nat) (t t' : Skel) (T : Ty) (st : St)
+    (h : infer ctx fuel t [] St.empty = .ok (t', T, st)) : CInv st ∧ RB st :=
+  infer_good ctx fuel t [] St.empty t' T st h good_empty
+
+example : ∃ r, infer Ex.ctx 20 Ex.skel [] St.empty = .ok r := exists_ok_of_isSome (by decide +kernel)
+
+/-- `type_infer_total`: for every context, skeleton and flag some amount of fuel is enough (and then any larger
+amount): the model never answers "out of fuel", i.e. the Python `type_infer` (recursive `unify`, traversal,
+`while has_repl` loop) terminates on every input. -/
+theorem type_infer_total (ctx : Ctx) (forbid : Bool) (t : Skel) :
+    ∃ N, ∀ fuel, N ≤ fuel → typeInfer ctx fuel forbid t ≠ .error .fuel := by
+  cases h0 : applyDefs ctx t with
+  | error e =>
+    refine ⟨0, fun fuel _ => ?_⟩
+    simp only [typeInfer, h0]
+    intro h
+    cases h
+    -- applyDefs only fails with `reserved`
+    simp only [applyDefs] at h0
+    repeat' split at h0
+    all_goals cases h0
+  | ok t0 =>
+    obtain ⟨N1, hN1⟩ := infer_total ctx t0 [] St.empty good_empty
+    cases hi : infer ctx N1 t0 [] St.empty with
+    | error e =>
+      refine ⟨N1, fun fuel hf => ?_⟩
+      have := infer_mono_le ctx hf hi (by rw [← hi]; exact hN1)
+      simp only [typeInfer, h0, this]
+      intro h; cases h; exact hN1 hi
+    | ok r =>
+      obtain ⟨t', T, st⟩ := r
+      obtain ⟨N2, hN2⟩ := type_infer_loop_terminates ctx N1 t0 t' T st forbid hi
+      refine ⟨max N1 N2, fun fuel hf => ?_⟩
+      have := infer_mono_le ctx (Nat.le_trans (Nat.le_max_left N1 N2) hf) hi (by intro h; cases h)
+      simp only [typeInfer, h0, this]
+      exact hN2 fuel (Nat.le_trans (Nat.le_max_right N1 N2) hf)
+
+/-- non-vacuity: the example skeleton is answered (not "out of fuel") with fuel 20 -/
+example : (typeInfer Ex.ctx 20 true Ex.skel).toOption.isSome = true := by decide +kernel
 
 end Holpy.C08
